@@ -7,14 +7,22 @@ open Ldap3V.Spec (Filter)
 in `d'` whenever they are in `d` -/
 def Dialect.le (d d' : Dialect) : Prop := (d.bareNumber = true → d'.bareNumber = true) ∧ d.dnAnyCase = d'.dnAnyCase
 
-theorem isOid_mono {d d' : Dialect} (h : d.le d') {s : Bytes} (hs : IsOid d s) : IsOid d' s := by
+/-- oids and attribute descriptions depend on the `bareNumber` component only -/
+theorem isOid_bare {d d' : Dialect} (h : d.bareNumber = true → d'.bareNumber = true) {s : Bytes}
+    (hs : IsOid d s) : IsOid d' s := by
   rcases hs with hs | ⟨n0, ns, h0, hall, hb, e⟩
   · exact Or.inl hs
-  · exact Or.inr ⟨n0, ns, h0, hall, hb.imp h.1 id, e⟩
+  · exact Or.inr ⟨n0, ns, h0, hall, hb.imp h id, e⟩
 
-theorem isAttrDesc_mono {d d' : Dialect} (h : d.le d') {s : Bytes} (hs : IsAttrDesc d s) : IsAttrDesc d' s := by
+theorem isAttrDesc_bare {d d' : Dialect} (h : d.bareNumber = true → d'.bareNumber = true) {s : Bytes}
+    (hs : IsAttrDesc d s) : IsAttrDesc d' s := by
   obtain ⟨t, opts, ht, ho, e⟩ := hs
-  exact ⟨t, opts, isOid_mono h ht, ho, e⟩
+  exact ⟨t, opts, isOid_bare h ht, ho, e⟩
+
+theorem isOid_mono {d d' : Dialect} (h : d.le d') {s : Bytes} (hs : IsOid d s) : IsOid d' s := isOid_bare h.1 hs
+
+theorem isAttrDesc_mono {d d' : Dialect} (h : d.le d') {s : Bytes} (hs : IsAttrDesc d s) : IsAttrDesc d' s :=
+  isAttrDesc_bare h.1 hs
 
 theorem isDnKw_mono {d d' : Dialect} (h : d.le d') (k : Bytes) : isDnKw d k = isDnKw d' k := by
   simp [isDnKw, h.2]
@@ -86,9 +94,9 @@ end
 theorem gtop_mono {d d' : Dialect} (h : d.le d') {f : Filter} {s : Bytes} (hs : Gtop d f s) : Gtop d' f s :=
   hs.imp (g_mono h f s) (gitem_mono h)
 
-theorem rfcLowerDn_le_lib : Dialect.rfcLowerDn.le Dialect.lib := ⟨fun _ => rfl, rfl⟩
+theorem rfc_le_lib : Dialect.rfc.le Dialect.lib := ⟨fun _ => rfl, rfl⟩
 
-theorem rfcLowerDn_in_lib {f : Filter} {s : Bytes} (h : GRfcLowerDn f s) : GLib f s :=
-  gtop_mono rfcLowerDn_le_lib h.1
+theorem rfc_in_lib {f : Filter} {s : Bytes} (h : GRfc f s) : GLib f s :=
+  gtop_mono rfc_le_lib h.1
 
 end Ldap3V.Spec.Filter
